@@ -88,6 +88,8 @@ type Unit struct {
 	sentinels  map[string]Term
 	lockSnaps  map[string]*State
 	inlineSites []token.Pos // call positions (outermost first) of the inlined callees being executed
+	forceInline map[*types.Func]bool // bounded units: inline these (recursive) callees instead of using contracts
+	boundedNote string
 }
 
 type closure struct {
@@ -430,6 +432,21 @@ func (u *Unit) runDefers(st *State) []*State {
 			progressed = true
 			d := s.defers[len(s.defers)-1]
 			s.defers = s.defers[:len(s.defers)-1]
+			if d.guard.S != "" {
+				// conditional defer: runs on the paths that registered it
+				skip := s.clone()
+				skip.assume(Not(d.guard))
+				s.assume(d.guard)
+				var ran []*State
+				for _, o := range d.run(s) {
+					if o.kind == oNormal || o.kind == oReturn {
+						ran = append(ran, o.st)
+					}
+				}
+				ran = append(ran, skip)
+				next = append(next, u.merge(ran))
+				continue
+			}
 			for _, o := range d.run(s) {
 				if o.kind == oNormal || o.kind == oReturn {
 					next = append(next, o.st)
